@@ -10,7 +10,7 @@ TIE_STABLE_FUNCS = CP.TIE_STABLE_FUNCS
 SORT_SKIP_FUNCS = CP.SORT_SKIP_FUNCS
 STUBS = CP.STUBS
 ASSUMPTIONS = CP.ASSUMPTIONS + ["summary percentages: exact rationals (float rounding outside), only when the path weight > 0"]
-BUDGET_S = {"quick": 540, "thorough": 3300}
+BUDGET_S = {"quick": 540, "thorough": 1200}
 BOUNDS = {
     "quick": "every successful analysis of 11 structures (0..2 launch/kernel pairs incl. communication kernels, stream "
              "synchronisation, nested operators, a user annotation between an operator and its calls, CUDA event wait, two operators) over the whole-trace window and of 3 structures over the ProfilerStep window",
